@@ -33,6 +33,12 @@ func f4(a S2, b *int, c []int, d int) int { ran[3]++; return d + len(c) }
 func f5(a interface{}, b int) int { ran[4]++; return b }
 
 //go:noinline
+func f6(a []string, b int) int { ran[12]++; return b + len(a) }
+
+//go:noinline
+func f7(a map[string]int, b []int) int { ran[13]++; return len(a) + len(b) }
+
+//go:noinline
 func v0(va ...int) int { ran[5]++; return len(va) }
 
 //go:noinline
@@ -105,6 +111,8 @@ func init() {
 	add("f3", f3, &ran[2])
 	add("f4", f4, &ran[3])
 	add("f5", f5, &ran[4])
+	add("f6", f6, &ran[12])
+	add("f7", f7, &ran[13])
 	add("v0", v0, &ran[5])
 	add("v1", v1, &ran[6])
 	add("v2", v2, &ran[7])
@@ -199,7 +207,13 @@ func pool(t reflect.Type) []reflect.Value {
 	case reflect.Ptr:
 		return mk(nil, &one, &two, &oneB)
 	case reflect.Slice:
+		if t.Elem().Kind() == reflect.String {
+			// values that print alike under %v and are different: nil / empty, one element with a blank / two elements
+			return mk(nil, []string{}, []string{"a b"}, []string{"a", "b"}, []string{"a"})
+		}
 		return mk(nil, []int{}, []int{1}, []int{1, 2}, []int{1})
+	case reflect.Map:
+		return mk(nil, map[string]int{}, map[string]int{"a": 1}, map[string]int{"a": 2})
 	case reflect.Interface:
 		return mk(nil, 1, 2, "a", "b")
 	}
@@ -214,7 +228,7 @@ func eq(a, b reflect.Value) bool {
 			return a.IsNil() && b.IsNil()
 		}
 		return a.Elem().Interface() == b.Elem().Interface()
-	case reflect.Slice:
+	case reflect.Slice, reflect.Map:
 		if a.IsNil() || b.IsNil() {
 			return a.IsNil() && b.IsNil()
 		}
